@@ -21,9 +21,11 @@ type Cluster struct {
 	Nodes []*Node
 	Clock *verifhook.VirtualClock
 	disc0 int
+	// MaxMemory, when set before the nodes are created (NewClusterWith), limits every node (policy noeviction).
+	MaxMemory uint64
 }
 
-func newNode(id string, bootstrap bool, join string, forward bool, clk *verifhook.VirtualClock) (*Node, int, error) {
+func newNode(id string, bootstrap bool, join string, forward bool, clk *verifhook.VirtualClock, maxMemory uint64) (*Node, int, error) {
 	conf := sugardb.DefaultConfig()
 	conf.DataDir = ""
 	conf.ServerID = id
@@ -36,6 +38,7 @@ func newNode(id string, bootstrap bool, join string, forward bool, clk *verifhoo
 	conf.JoinAddr = join
 	conf.ForwardCommand = forward
 	conf.EvictionPolicy = "noeviction"
+	conf.MaxMemory = maxMemory
 	opts := []func(*sugardb.SugarDB){sugardb.WithConfig(conf), sugardb.WithVerifClock(clk)}
 	db, err := sugardb.NewSugarDB(opts...)
 	if err != nil {
@@ -48,8 +51,13 @@ func newNode(id string, bootstrap bool, join string, forward bool, clk *verifhoo
 
 // NewCluster starts size nodes; node 0 bootstraps, the others join it. forward[i] sets ForwardCommand.
 func NewCluster(size int, forward func(i int) bool) (*Cluster, error) {
-	c := &Cluster{Clock: verifhook.NewVirtualClock(Epoch)}
-	n0, disc, err := newNode("SERVER-0", true, "", forward(0), c.Clock)
+	return NewClusterWith(size, forward, 0)
+}
+
+// NewClusterWith is NewCluster with a memory limit (0 = none) on every node.
+func NewClusterWith(size int, forward func(i int) bool, maxMemory uint64) (*Cluster, error) {
+	c := &Cluster{Clock: verifhook.NewVirtualClock(Epoch), MaxMemory: maxMemory}
+	n0, disc, err := newNode("SERVER-0", true, "", forward(0), c.Clock, maxMemory)
 	if err != nil {
 		return nil, err
 	}
@@ -68,7 +76,7 @@ func NewCluster(size int, forward func(i int) bool) (*Cluster, error) {
 
 // Join adds a node to the running cluster and waits until it has applied a marker written through the leader.
 func (c *Cluster) Join(id string, forward bool) (*Node, error) {
-	n, _, err := newNode(id, false, fmt.Sprintf("SERVER-0/127.0.0.1:%d", c.disc0), forward, c.Clock)
+	n, _, err := newNode(id, false, fmt.Sprintf("SERVER-0/127.0.0.1:%d", c.disc0), forward, c.Clock, c.MaxMemory)
 	if err != nil {
 		return nil, err
 	}
